@@ -22,7 +22,7 @@ RULE = ("Random interleavings (5-80 operations) of quotes and discontinuations o
         "contains a discontinuation followed by a quote for the same contract, or a chain-addressed quote after a roll.")
 ASSUMPTIONS = ["a quote is 'accepted' iff its book is alive; rejected quotes must not be appended to the history"]
 REQUIRED = ["C14:price", "C14:alive", "C14:history", "C14:sides", "C14:chain-key-is-lead", "C14:string-key-same-book", "C14:vectors"]
-REQUIRED_CATS = ["query:sparse", "query:all-keys-every-op", "op:disc", "op:chainq", "op:strq", "quote-after-death", "chain-after-roll"]
+REQUIRED_CATS = ["quote:one-side-only", "query:sparse", "query:all-keys-every-op", "op:disc", "op:chainq", "op:strq", "quote-after-death", "chain-after-roll"]
 TECHNIQUE = "runtime monitoring: executable reference model (dict of books) compared after every operation of generated histories"
 LEVEL_TEXT = ("Exploration: history + executable model. Every generated quote/discontinuation history is replayed against a small "
               "deterministic model and every observable of every book is compared after each operation.")
@@ -71,6 +71,16 @@ def case(ctx, i, tier):
         b = rng.choice([rng.uniform(1, 100), rng.uniform(1, 100), NAN])
         a = b + rng.choice([0, 0.5]) if b == b else rng.choice([NAN, rng.uniform(1, 100)])
         via = rng.random() < 0.5
+        if op != "disc" and rng.random() < 0.25:
+            # only one side changes: the other repeats EXACTLY the book's current value
+            tgt0 = lead.symbol if op == "chainq" else sym
+            cur = model.get(tgt0)
+            if cur and cur["bid"] == cur["bid"] and cur["ask"] == cur["ask"]:
+                if rng.random() < 0.5:
+                    b, a = cur["bid"], cur["bid"] + rng.uniform(0, 3)
+                else:
+                    b, a = max(cur["ask"] - rng.uniform(0, 3), 0.01), cur["ask"]
+                ctx.cat("quote:one-side-only")
         ctx.cat("op:" + op)
         if op == "disc":
             e = EventContractDiscontinued(t, objs[sym])
